@@ -266,6 +266,9 @@ def base_classes(R):
         res = 'none' if o is None else ('ok' if o.get('ok') else
                                         type(o.get('exc')).__name__)
         cls.append(f'{kind}:{res}')
+    if any(isinstance(e, KeyboardInterrupt)
+           for (_, _, e, _) in R.trace.delivered):
+        cls.append('serial-interrupt-in-call')
     return cls
 
 
@@ -276,6 +279,7 @@ class C04(SystematicMixin, E2ECheck):
     quick_examples = 24000
     thorough_examples = 400000
     profile = {
+        'serial_kbi': True,
         'rejects': True,
         'latency': True,
         'limits': 'ones', 'ntransfers': (1, 4),
@@ -407,6 +411,7 @@ class C03(SystematicMixin, E2ECheck):
     quick_examples = 32000
     thorough_examples = 400000
     profile = {
+        'serial_kbi': True,
         'ntransfers': (1, 2), 'subs': {'max': 1, 'size': True},
         'body_scripts': True, 'stream_scripts': True,
         'stream_hard_faults': True,
@@ -449,6 +454,7 @@ class C05(SystematicMixin, LegacyMixin, E2ECheck):
     quick_examples = 32000
     thorough_examples = 350000
     profile = {
+        'serial_kbi': True,
         'latency': True,
         'types': ['upload', 'upload', 'copy'], 'ntransfers': (1, 2),
         'subs': {'max': 1, 'size': True}, 'body_scripts': True,
@@ -498,6 +504,7 @@ class C06(PoolMixin, SystematicMixin, LegacyMixin, E2ECheck):
     quick_examples = 32000
     thorough_examples = 350000
     profile = {
+        'serial_kbi': True,
         'long_names': True,
         'cancel_points': True,
         'types': ['download'], 'dsts': ['path'], 'ntransfers': (1, 2),
@@ -582,6 +589,7 @@ class C08(E2ECheck):
     quick_examples = 32000
     thorough_examples = 350000
     profile = {
+        'serial_kbi': True,
         'cancel_points': True,
         'latency': True,
         'ntransfers': (1, 3),
@@ -844,6 +852,7 @@ class C18(E2ECheck):
     quick_examples = 20000
     thorough_examples = 250000
     profile = {
+        'serial_kbi': True,
         'rejects': True,
         'latency': True,
         'ntransfers': (2, 4), 'subs': {'max': 1, 'size': True},
